@@ -376,6 +376,15 @@ func (s *Server) react(a ktesting.Action, pc bool) (bool, runtime.Object, error)
 	if ret != nil && c.Verb != "list" {
 		c.Result = ret.DeepCopyObject()
 	}
+	if err != nil && ret == nil && c.Verb != "delete" {
+		// like the real typed clients (and unlike the generated fakes' default), a failed call still hands
+		// back a non-nil zero object next to the error
+		if c.Verb == "list" {
+			ret = newList(c.Res)
+		} else {
+			ret = newObj(c.Res)
+		}
+	}
 	done = c
 	return true, ret, err
 }
